@@ -46,6 +46,9 @@ def setup(J):
         # both dead ends must be drained at the same time (streams longer than the buffers)
         for i in ((2, 3) if q else (2, 3, 4)):
             jobs.append(J.with_delay_fallback(J.wf("C16", "g8h", i, 1, 2, "func", oracles=["nohang", "clean", "c04", "c05"], tier=tier, events_dep=False, id=f"C16-dangling-g8h-i{i}")))
+        # ... and the same with a consumer that has no out-ports: the dead-end parameter out-port is then the ONLY reason to run the sink
+        for i in (2, 3):
+            jobs.append(J.with_delay_fallback(J.wf("C16", "g8k", i, 1, 2, "func", oracles=["nohang", "clean", "c04", "c05"], tier=tier, events_dep=False, id=f"C16-dangling-g8k-i{i}")))
         # (c) every non-empty subset of processes as RunTo targets, by name / regex / process value
         for g, (procs, _) in GRAPHS.items():
             if q and g in ("g6",):
